@@ -14,7 +14,7 @@ from .csrc import ExtractError
 
 # rules whose case body is translated into the IR and proved equal to the Op.step case in Peg/TieSkel.lean
 IR_RULES = ["RULE_IF", "RULE_IFNOT", "RULE_NOT", "RULE_DROP", "RULE_ONLY_TAGS", "RULE_SUB", "RULE_ACCUMULATE", "RULE_CAPTURE",
-            "RULE_POSITION", "RULE_CONSTANT", "RULE_GROUP", "RULE_NTH", "RULE_ERROR", "RULE_BETWEEN", "RULE_TO", "RULE_THRU", "RULE_TIL", "RULE_CHOICE", "RULE_SEQUENCE"]
+            "RULE_POSITION", "RULE_CONSTANT", "RULE_GROUP", "RULE_NTH", "RULE_ERROR", "RULE_BETWEEN", "RULE_TO", "RULE_THRU", "RULE_TIL", "RULE_CHOICE", "RULE_SEQUENCE", "RULE_LENPREFIX"]
 
 
 class Unsupported(Exception):
@@ -219,6 +219,8 @@ class Extract:
         self.oldmode = None
         self.pending_rule = None      # `rule = s->bytecode + rule[k];` waiting for `goto tail`
         self.argsbase = {}            # `const uint32_t *args = rule + B`  -> B
+        self.numdef = {}              # numeric local -> how it was defined (for the lenprefix idiom)
+        self.lencap = {}              # Janet local assigned s->captures->data[cs.cap] inside the lenprefix condition -> cs
         self.num = {}                 # int32_t locals -> index
         self.clamped = set()          # word aliases clamped to INT32_MAX
         self.arr = {}                 # JanetArray under construction: name -> dict(n=, cs=)
@@ -231,6 +233,7 @@ class Extract:
         e.oldmode, e.pending_rule = self.oldmode, self.pending_rule
         e.num, e.clamped, e.posalias, e.lc = dict(self.num), set(self.clamped), dict(self.posalias), dict(self.lc)
         e.argsbase = dict(self.argsbase)
+        e.numdef, e.lencap = dict(self.numdef), dict(self.lencap)
         e.arr = {k: dict(v) for k, v in self.arr.items()}
         return e
 
@@ -317,6 +320,12 @@ class Extract:
     def cond(self, toks):
         """-> nested tuples ('not', c) ('and', a, b) ('or', a, b) or an atom string"""
         toks = strip_casts(toks)
+        m = re.fullmatch(r"(\w+) <= 0 \|\| \( (\w+) = s -> captures -> data \[ (\w+) \. cap \] , ! janet_checkint \( (\w+) \) \)",
+                         " ".join(toks))
+        if m and m.group(2) == m.group(4) and m.group(2) in self.val and m.group(3) in self.cs and m.group(1) in self.num \
+                and self.numdef.get(m.group(1)) == ("capsAbove", m.group(3)):
+            self.lencap[m.group(2)] = m.group(3)
+            return ".lenCapBad %d" % self.cs[m.group(3)]
         pos = [0]
 
         def peek():
@@ -401,6 +410,9 @@ class Extract:
         m = re.fullmatch(r"(\w+) == 0", s)
         if m and m.group(1) in self.word and m.group(1) not in self.clamped:
             return ".tagZero %d" % self.word[m.group(1)]
+        m = re.fullmatch(r"(\w+) < (\w+)", s)
+        if m and m.group(1) in self.num and m.group(2) in self.num:
+            return ".numLtNum %d %d" % (self.num[m.group(1)], self.num[m.group(2)])
         m = re.fullmatch(r"(\w+) < (\w+) - 1", s)
         if m and m.group(1) in self.num and m.group(2) in self.word:
             return ".numLtWordPred %d %s" % (self.num[m.group(1)], self.we([m.group(2)]))
@@ -459,7 +471,13 @@ class Extract:
         if m and (m.group(2) is None or m.group(2) in self.cs):
             if m.group(1) not in self.num:
                 self.num[m.group(1)] = len(self.num)
+            self.numdef[m.group(1)] = ("capCount",) if m.group(2) is None else ("capsAbove", m.group(2))
             return [".numDef %d %s" % (self.num[m.group(1)], ".capCount" if m.group(2) is None else "(.capsAbove %d)" % self.cs[m.group(2)])]
+        m = re.fullmatch(r"int32_t (\w+) = janet_unwrap_integer \( (\w+) \)", s)
+        if m and m.group(2) in self.lencap:
+            if m.group(1) not in self.num:
+                self.num[m.group(1)] = len(self.num)
+            return [".numDef %d (.capIntAt %d)" % (self.num[m.group(1)], self.cs[self.lencap[m.group(2)]])]
         # the array idiom of RULE_GROUP: janet_array(n); safe_memcpy(a->data, s->captures->data + cs.cap, sizeof(Janet) * n); a->count = n
         m = re.fullmatch(r"JanetArray \* (\w+) = janet_array \( (\w+) \)", s)
         if m and m.group(2) in self.num:
